@@ -13,7 +13,8 @@ RULE = ('70% E1 histories (pure scheduler API) and 30% E2 histories (Master + Zk
         'gained a placement. Non-trivial = a history with a cycle in which '
         '>=1 instance was displaced and >=1 other kept/regained its server '
         'while something was placed. distinct = canonical JSON.'
-        ' Since round 7: capacity pressure that exhausts a dimension exactly (fill), cell re-announcements and re-parenting in E2.')
+        ' Since round 7: capacity pressure that exhausts a dimension exactly (fill), cell re-announcements and re-parenting in E2.'
+        " Since round 8: reslot op (a server's reboot slot is assigned again after a presence change, possibly before the expiry of leases granted on it).")
 ASSUMPTIONS = [
     'virtual clock replaces treadmill.scheduler.time',
     'queue order is captured by wrapping Cell._find_placements (observing '
